@@ -424,10 +424,8 @@ def ev(n, env, funcs=None):
                 return True if not v0.isa else bool(v0.isa & names)
             if isinstance(v0, PyStub):
                 return bool(set(getattr(v0, 'isa', ())) & names)
-            pyname = {bool: 'bool', int: 'int', float: 'float', str: 'str', list: 'list', tuple: 'tuple', dict: 'dict', set: 'set'}.get(type(v0))
-            if pyname == 'bool':
-                return bool({'bool', 'int'} & names)
-            return pyname in names if pyname else False
+            builtin = {'bool': bool, 'int': int, 'float': float, 'str': str, 'list': list, 'tuple': tuple, 'dict': dict, 'set': set, 'complex': complex}
+            return any(isinstance(v0, builtin[nm_]) for nm_ in names if nm_ in builtin)        # subclasses included, as in Python
         args = []
         for a_ in n.args:
             if isinstance(a_, ast.Starred):
